@@ -10,7 +10,7 @@
    clients that may connect / send half a request / complete it / close at any time.
 
    One action per linearization point of the code, named after the hook points in the code:
-     acceptor   Accept_Return, Flag_Read, Dispatch, Loop_Exit, Pool_Stop, Closure_Drop
+     acceptor   Accept_Return, Accept_Error, Flag_Read, Dispatch, Loop_Exit, Pool_Stop, Closure_Drop
      run thread Sig_Recv, Flag_Set, Wake_Connect, Join_Return        (tokio: only Join_Return)
      pool       Worker_Take, Worker_Disc        handler  H_Read, H_Finish, H_Write, H_Eof
      clients    Cli_Connect, Cli_SendHalf, Cli_SendRest, Cli_Close   environment  Sig_Send
@@ -28,6 +28,7 @@ CONSTANTS Clients,      \* client connection ids (positive integers)
           MaxReq,       \* requests a client may start on one connection
           Kinds,        \* kinds of request: subset of {"close", "keep", "ws"}
           SigTwice,     \* BOOLEAN: the signal may be sent a second time
+          Faults,       \* environment faults explored: subset of {"nofd"} (the process runs out of file descriptors)
           Dev           \* subset of DevNames
 
 WAKE == 0                \* the wake-up connection made by the run thread
@@ -45,24 +46,26 @@ DevNames == { "NoWake",             \* no wake-up connection (e.g. connect to th
               "DenyWhenSaturated",  \* acceptor drops a connection when no worker is idle                     -> Inv_ServingBefore
               "FlagBeforeRecv",     \* flag initialised true / set before the signal is received             -> Inv_ServingBefore
               "AbortOnStop",        \* stop() kills the connections being handled                             -> Inv_NoTruncation
-              "StopDropsQueue" }    \* stop() discards jobs that were dispatched but not started              -> Inv_DispatchedKept
-ASSUME Dev \subseteq DevNames /\ Kinds \subseteq {"close", "keep", "ws"}
+              "StopDropsQueue",     \* stop() discards jobs that were dispatched but not started              -> Inv_DispatchedKept
+              "AcceptErrorsRetriedInside" } \* a failed accept() is retried inside a helper: the flag is only looked at after a SUCCESSFUL accept -> Live_RunReturns
+ASSUME Dev \subseteq DevNames /\ Kinds \subseteq {"close", "keep", "ws"} /\ Faults \subseteq {"nofd"}
 
 VARIABLES rt, nw,
           apc, cur,                       \* acceptor: program counter, connection in hand
           spc,                            \* the thread that called run
           chan, sent, flag,               \* shutdown channel non-empty; signal was sent (history); AtomicBool / token
           listener, backlog,              \* kernel: listening socket, accept queue
+          nofd,                           \* kernel: the process has no free file descriptor (accept() and the wake-up connect fail with EMFILE)
           queue, alive, busy, pooldrop,   \* pool: FIFO of jobs, workers not exited, connections owned by a worker/task, Sender dropped
           cs, inbuf, kind, wr, ceof, nreq,\* per connection: server-side state, unread request bytes, kind of request, response pieces written, client closed, requests started
           reqB4, served, trunc            \* history: request was read by the server before the signal; full responses; truncated responses
 
-vars == <<rt, nw, apc, cur, spc, chan, sent, flag, listener, backlog, queue, alive, busy, pooldrop,
+vars == <<rt, nw, apc, cur, spc, chan, sent, flag, listener, backlog, nofd, queue, alive, busy, pooldrop,
           cs, inbuf, kind, wr, ceof, nreq, reqB4, served, trunc>>
 
 aVars == <<apc, cur>>
 sVars == <<spc, chan, sent, flag>>
-kVars == <<listener, backlog>>
+kVars == <<listener, backlog, nofd>>
 pVars == <<queue, alive, busy, pooldrop>>
 cVars == <<inbuf, kind, wr, ceof, nreq>>
 hVars == <<reqB4, served, trunc>>
@@ -79,7 +82,7 @@ TypeOK ==
   /\ cur \in Conns \cup {NONE}
   /\ spc \in {"recv", "set", "wake", "join", "returned"}
   /\ chan \in BOOLEAN /\ sent \in BOOLEAN /\ flag \in BOOLEAN /\ pooldrop \in BOOLEAN
-  /\ listener \in {"open", "closed"}
+  /\ listener \in {"open", "closed"} /\ nofd \in BOOLEAN
   /\ backlog \in Seq(Conns) /\ queue \in Seq(Conns \cup {STOP})
   /\ alive \in 0..MaxWorkers /\ busy \subseteq Conns
   /\ cs \in [Conns -> CStates]
@@ -98,7 +101,7 @@ Init ==
   /\ apc = "accept" /\ cur = NONE
   /\ spc = IF rt = "threaded" THEN "recv" ELSE "join"
   /\ chan = FALSE /\ sent = FALSE /\ flag = ("FlagBeforeRecv" \in Dev)
-  /\ listener = "open" /\ backlog = <<>>
+  /\ listener = "open" /\ backlog = <<>> /\ nofd = FALSE
   /\ queue = <<>> /\ alive = nw /\ busy = {} /\ pooldrop = FALSE
   /\ cs = [c \in Conns |-> "none"]
   /\ inbuf = [c \in Conns |-> "empty"]
@@ -133,7 +136,7 @@ Cli_Connect(c) ==
             /\ cs' = [cs EXCEPT ![c] = "backlog"]
        ELSE /\ backlog' = backlog
             /\ cs' = [cs EXCEPT ![c] = "refused"]
-  /\ UNCHANGED <<cfgVars, aVars, sVars, listener, pVars, cVars, hVars>>
+  /\ UNCHANGED <<cfgVars, aVars, sVars, listener, nofd, pVars, cVars, hVars>>
 
 \* the first part of a request; only one request is outstanding per connection
 Cli_SendHalf(c) ==
@@ -212,18 +215,32 @@ H_Eof(c) ==
 (* ------------------------------------------------------------------ acceptor *)
 \* accept() returns the head of the backlog.  tokio: the accept arm of select! wins (also possible when
 \* the token is already cancelled: select! picks among ready arms at random)
+\* (also possible while the descriptor table is full: Linux reserves the descriptor BEFORE accept() starts to wait,
+\* so an accept() that was already waiting when the table filled up still delivers one connection)
 Accept_Return ==
   /\ apc = "accept" /\ backlog # <<>>
   /\ cur' = Head(backlog)
   /\ backlog' = Tail(backlog)
   /\ cs' = [cs EXCEPT ![Head(backlog)] = "held"]
   /\ apc' = IF rt = "tokio" THEN "dispatch" ELSE "accepted"
-  /\ UNCHANGED <<cfgVars, sVars, listener, pVars, cVars, hVars>>
+  /\ UNCHANGED <<cfgVars, sVars, listener, nofd, pVars, cVars, hVars>>
+
+\* accept() fails (EMFILE: the process has no descriptor left; whether or not a connection is pending - the descriptor
+\* is reserved first) and returns WITHOUT a connection.  threaded: the loop body runs with Err in hand - the flag is looked at next (Flag_Read with
+\* cur = NONE), then the error goes to the monitor and accept() is called again.  tokio: the error goes to the
+\* monitor and the loop goes back to select! (nothing changes: the cancelled() arm is looked at every time round).
+\* Dev "AcceptErrorsRetriedInside": the retry happens inside a helper that only returns a connection, so nothing
+\* changes in the threaded loop either - the flag is not looked at.
+Accept_Error ==
+  /\ apc = "accept" /\ nofd
+  /\ apc' = IF rt = "threaded" /\ "AcceptErrorsRetriedInside" \notin Dev THEN "accepted" ELSE apc
+  /\ UNCHANGED <<cfgVars, cur, sVars, kVars, pVars, cs, cVars, hVars>>
 
 \* threaded only: shutdown_clone.load(SeqCst) at the top of the loop body
 Flag_Read ==
   /\ rt = "threaded" /\ apc = "accepted"
-  /\ apc' = IF flag THEN "exit" ELSE "dispatch"
+  \* (cur = NONE: accept() had failed; `Err(e) => monitor.send(..)` and round again)
+  /\ apc' = IF flag THEN "exit" ELSE IF cur = NONE THEN "accept" ELSE "dispatch"
   /\ UNCHANGED <<cfgVars, cur, sVars, kVars, pVars, cs, cVars, hVars>>
 
 \* thread_pool.execute (unbounded channel: never blocks) / tokio::spawn
@@ -243,7 +260,7 @@ Dispatch ==
 \* tokio: the cancelled() arm of select! wins - nothing is in hand.
 Loop_Exit ==
   \/ /\ rt = "threaded" /\ apc = "exit"
-     /\ cs' = [cs EXCEPT ![cur] = "dropped"]
+     /\ cs' = IF cur = NONE THEN cs ELSE [cs EXCEPT ![cur] = "dropped"]
      /\ cur' = NONE /\ apc' = "stop"
      /\ UNCHANGED <<cfgVars, sVars, kVars, pVars, cVars, hVars>>
   \/ /\ rt = "tokio" /\ apc = "accept" /\ flag
@@ -278,7 +295,7 @@ Closure_Drop ==
   /\ backlog' = <<>>
   /\ cs' = [c \in Conns |-> IF cs[c] = "backlog" THEN "reset" ELSE cs[c]]
   /\ pooldrop' = TRUE
-  /\ UNCHANGED <<cfgVars, cur, sVars, queue, alive, busy, cVars, hVars>>
+  /\ UNCHANGED <<cfgVars, cur, sVars, nofd, queue, alive, busy, cVars, hVars>>
 
 (* ------------------------------------------------------------------ the thread that called run *)
 Sig_Recv ==
@@ -295,7 +312,7 @@ Flag_Set ==
 Wake_Connect ==
   /\ spc = "wake"
   /\ spc' = "join"
-  /\ IF "NoWake" \in Dev
+  /\ IF "NoWake" \in Dev \/ nofd      \* no descriptor for the socket: connect fails, `let _ =` ignores it
        THEN UNCHANGED <<backlog, cs, ceof>>
        ELSE IF listener = "open"
               THEN /\ backlog' = Append(backlog, WAKE)
@@ -304,7 +321,7 @@ Wake_Connect ==
               ELSE /\ backlog' = backlog
                    /\ cs' = [cs EXCEPT ![WAKE] = "refused"]
                    /\ ceof' = ceof
-  /\ UNCHANGED <<cfgVars, aVars, chan, sent, flag, listener, pVars, inbuf, kind, wr, nreq, hVars>>
+  /\ UNCHANGED <<cfgVars, aVars, chan, sent, flag, listener, nofd, pVars, inbuf, kind, wr, nreq, hVars>>
 
 \* threaded: main_app_thread.join() returns; tokio: the future completes
 Join_Return ==
@@ -313,15 +330,30 @@ Join_Return ==
   /\ spc' = "returned"
   /\ UNCHANGED <<cfgVars, aVars, chan, sent, flag, kVars, pVars, cs, cVars, hVars>>
 
+(* ------------------------------------------------------------------ environment fault: descriptor exhaustion *)
+\* The process runs out of file descriptors at any time while run is running (idle connections, open files ...).
+\* ASSUMPTION (stated in the check's output): once begun the fault lasts until run has returned.  A fault that ends
+\* in the few instructions between the accept loop's flag check and its next accept(), after the wake-up connect has
+\* failed inside it, leaves the unchanged code waiting in accept() with the flag set until the next connection arrives;
+\* that transient is not explored here (and cannot be provoked by the harness).
+Fd_Exhaust ==
+  /\ "nofd" \in Faults /\ ~nofd /\ spc # "returned"
+  /\ nofd' = TRUE
+  /\ UNCHANGED <<cfgVars, aVars, sVars, listener, backlog, pVars, cs, cVars, hVars>>
+Fd_End ==
+  /\ nofd' = FALSE
+  /\ UNCHANGED <<cfgVars, aVars, sVars, listener, backlog, pVars, cs, cVars, hVars>>
+Fd_Recover == nofd /\ spc = "returned" /\ Fd_End
+
 (* ------------------------------------------------------------------ processes *)
-Acceptor == Accept_Return \/ Flag_Read \/ Dispatch \/ Loop_Exit \/ Pool_Stop \/ Closure_Drop
+Acceptor == Accept_Return \/ Accept_Error \/ Flag_Read \/ Dispatch \/ Loop_Exit \/ Pool_Stop \/ Closure_Drop
 RunThread == Sig_Recv \/ Flag_Set \/ Wake_Connect \/ Join_Return
 Pool == Worker_Take \/ Worker_Disc
 Handler == \E c \in Conns : H_Read(c) \/ H_Finish(c) \/ H_Write(c) \/ H_Eof(c)
 Client == \E c \in Clients : \/ Cli_Connect(c) \/ Cli_SendHalf(c) \/ Cli_Close(c)
                              \/ \E k \in Kinds : Cli_SendRest(c, k)
 
-Next == Sig_Send \/ Sig_Again \/ Acceptor \/ RunThread \/ Pool \/ Handler \/ Client
+Next == Sig_Send \/ Sig_Again \/ Fd_Exhaust \/ Fd_Recover \/ Acceptor \/ RunThread \/ Pool \/ Handler \/ Client
 
 \* Fairness ONLY for the accept loop and the thread that called run.  No assumption on clients, on
 \* the signal, on workers or on handlers: a handler may block forever.  (tokio's Loop_Exit is enabled
